@@ -98,10 +98,11 @@ var fsPools = []map[string]string{
 	{"a": "αa", "b": "βb", "f": "файл", "x": "go", "e": "é"},
 	{"a": "dir_a", "b": "Makefile", "f": "main", "x": "GO", "e": "zzz"},
 	{"a": "a'q\"", "b": "b$HOME", "f": "f%s", "x": "x~", "e": "e:1"},
+	{"a": "v[1]", "b": "v*", "f": "f?q", "x": "x", "e": "[e\\"}, // names that are patterns to a glob matcher
 }
 
 func fsConc(i int) *tok.Conc {
-	c := &tok.Conc{Name: fmt.Sprintf("fspool%d", i%len(fsPools)), Chunks: map[string]string{"t": "t", "s": "s", "k": "k", "L": strings.Repeat("L", 256)},
+	c := &tok.Conc{Name: fmt.Sprintf("fspool%d", i%len(fsPools)), Chunks: map[string]string{"t": "t", "s": "s", "k": "k", "L": strings.Repeat("L", 256), "U": "caf\xe9"},
 		WS: " ", LD: "└──", LI: "    ", MD: "├──", MI: "│   ", FinalNL: true}
 	for k, v := range fsPools[i%len(fsPools)] {
 		c.Chunks[k] = v
